@@ -69,7 +69,7 @@ func zzH_C19() {
 		returned = true
 	})
 	call2 := conn.Go("S.Echo", &args2, &reply2, done2)
-	script := vChoose("script", 5)
+	script := vChoose("script", 6)
 	cancelled, answered := false, false
 	answer := func(r pbRequest) { m.deliver(zzResponse(r.Seq, "", zzReplyFor(r.Args))) }
 	recvReq := func() pbRequest {
@@ -113,13 +113,15 @@ func zzH_C19() {
 	case 3: // never answer the context call; cancel
 		answer(other)
 		cancel()
-	case 4: // answer and cancel without waiting in between
+	case 4, 5: // answer and cancel without waiting in between
 		answer(other)
 		answer(mine)
 		answered = true
 		cancel()
 	}
-	vQuiesce()
+	if script != 5 {
+		vQuiesce() // script 5: the later call is issued while the abandoned call may still be decoding
+	}
 	// a later call on the same connection still gets its own reply
 	done3 := make(chan *Call, 2)
 	call3 := conn.Go("S.Echo", &args3, &reply3, done3)
